@@ -27,9 +27,9 @@ Definition cancel_target_ok (pickc : list N -> N -> option N) : Prop :=
    epoll's read interest = EPOLLIN|EPOLLRDHUP and the hang-up bits being distinct from EPOLLIN/EPOLLOUT (the three
    flag booleans of PModel.p_flags), microseconds per second / per millisecond of Model.ms_to_us, NULL and -1 as the
    invalid timeout id / descriptor, the default poll interval, FD_SETSIZE of the boundary-fd cases, and
-   MAX_EVENTS (ready-list truncation is not modelled: scenarios use at most 4 descriptors < MAX_EVENTS). *)
+   MAX_EVENTS = PModel.p_max_events, the size of one epoll_wait batch (p_ep_batch). *)
 Theorem c16_consts :
-  N.of_nat p_max_free = EP_MAX_FREE_DESCRIPTORS /\ EP_MAX_EVENTS = 10 /\ 4 < EP_MAX_EVENTS /\
+  N.of_nat p_max_free = EP_MAX_FREE_DESCRIPTORS /\ N.of_nat p_max_events = EP_MAX_EVENTS /\ EP_MAX_EVENTS = 10 /\
   EP_READ_FLAGS = N.lor C_EPOLLIN C_EPOLLRDHUP /\
   N.land (N.lor C_EPOLLHUP C_EPOLLRDHUP) (N.lor C_EPOLLIN C_EPOLLOUT) = 0 /\ N.land C_EPOLLIN C_EPOLLOUT = 0 /\
   USEC_IN_SECONDS = 1000000 /\ ONE_THOUSAND = 1000 /\
@@ -338,7 +338,7 @@ Print Assumptions c16_read_takes_queue_prefix.
 Theorem c16_close_reported :
   forall (c : p_cfg) (d : nat) (desc : bool),
     (forall d' a, In a (pc_rs (p_get c d') ++ pc_ws (p_get c d') ++ pc_cs (p_get c d')) -> p_act_target a <> d) ->
-    d < length c ->
+    d < length c -> length c <= p_max_events ->
     (forall s, st_be s = false -> s_c (st_sel s) d = SPres ->
        st_closed s d = true -> st_pend s d = [] -> st_onclose s d = true -> st_del s d = false ->
        exists e, In e (st_log (p_step c s (POPoll desc))) /\ le_d e = d /\ le_kind e = PKClose) /\
@@ -348,9 +348,9 @@ Theorem c16_close_reported :
        st_closed s d = true -> st_pend s d = [] -> st_onclose s d = true -> st_del s d = false ->
        exists e, In e (st_log (p_step c s (POPoll desc))) /\ le_d e = d /\ le_kind e = PKClose).
 Proof.
-  intros c d desc G L. split.
+  intros c d desc G L LM. split.
   - intros s B C1 C2 C3 C4 C5. apply (p_sel_close_reported c d s desc G L). constructor; auto.
-  - intros ops id s M C R E C2 C3 C4 C5. apply (p_ep_close_reported c ops d id desc G L).
+  - intros ops id s M C R E C2 C3 C4 C5. apply (p_ep_close_reported c ops d id desc LM G L).
     constructor; auto. exact (proj1 (p_inv_run c true ops)). repeat split; auto.
 Qed.
 Print Assumptions c16_close_reported.
@@ -366,11 +366,11 @@ Print Assumptions c16_close_reported.
 Theorem c16_close_reported_history :
   forall (c : p_cfg) (ops : list p_op) (d : nat) (desc be : bool),
     (forall d' a, In a (pc_rs (p_get c d') ++ pc_ws (p_get c d') ++ pc_cs (p_get c d')) -> p_act_target a <> d) ->
-    d < length c -> pc_conn (p_get c d) = true -> pc_doc (p_get c d) = false ->
+    d < length c -> length c <= p_max_events -> pc_conn (p_get c d) = true -> pc_doc (p_get c d) = false ->
     let s := p_run be c ops in
     st_regr s d = true -> st_closed s d = true -> st_pend s d = [] -> st_onclose s d = true -> st_del s d = false ->
     exists e, In e (st_log (p_step c s (POPoll desc))) /\ le_d e = d /\ le_kind e = PKClose.
-Proof. exact p_close_reported_history. Qed.
+Proof. exact (fun c ops d desc be G L LM => p_close_reported_history c ops d desc be LM G L). Qed.
 Print Assumptions c16_close_reported_history.
 
 Example c16_close_reported_history_premises :
@@ -444,10 +444,12 @@ Qed.
          callback of that iteration is skipped on epoll but not on select: proposed finding
          C16-epoll-write-skipped-after-reregister; any two of the three are fine);
    p_ops_ok c ops: no top-level AddWrite on a pipe read end (G3).
-   Proof: both models refine one single-descriptor abstract machine (PAbs.l_run), per descriptor. *)
+   Proof: both models refine one single-descriptor abstract machine (PAbs.l_run), per descriptor.
+   length c <= p_max_events (= EPoller::MAX_EVENTS = 10): with more ready descriptors than one epoll_wait batch holds,
+   EPoller serves the rest only in a later iteration while SelectPoller serves all at once (c16_epoll_batch below). *)
 Theorem c16_backends_agree :
   forall (c : p_cfg) (ops : list p_op) (d : nat),
-    p_cfg_ok c = true -> p_ops_ok c ops = true -> d < length c ->
+    p_cfg_ok c = true -> p_ops_ok c ops = true -> d < length c -> length c <= p_max_events ->
     p_proj d (p_log (p_run true c ops)) = p_proj d (p_log (p_run false c ops)).
 Proof. exact p_backends_agree. Qed.
 Print Assumptions c16_backends_agree.
@@ -461,9 +463,9 @@ Print Assumptions c16_backends_agree.
    of d if d is a pipe.  (c16_backends_agree is the special case where this holds for every descriptor.) *)
 Theorem c16_backends_agree_per_descriptor :
   forall (c : p_cfg) (ops : list p_op) (d : nat),
-    p_d_ok c d = true -> p_ops_ok_d c d ops = true -> d < length c ->
+    p_d_ok c d = true -> p_ops_ok_d c d ops = true -> d < length c -> length c <= p_max_events ->
     p_proj d (p_log (p_run true c ops)) = p_proj d (p_log (p_run false c ops)).
-Proof. exact (fun c ops d G O L => p_agree_d c d G L ops O). Qed.
+Proof. exact (fun c ops d G O L LM => p_agree_d c d G L LM ops O). Qed.
 Print Assumptions c16_backends_agree_per_descriptor.
 
 (* guard met by a descriptor whose callback removes ANOTHER ready descriptor: d0's log is the same on both
@@ -480,7 +482,7 @@ Proof. vm_compute. repeat split; try reflexivity. discriminate. Qed.
 (* ... and both equal the run of the single-descriptor abstract machine (what "the callbacks of d" are). *)
 Theorem c16_backends_refine_abstract :
   forall (c : p_cfg) (ops : list p_op) (d : nat) (be : bool),
-    p_cfg_ok c = true -> p_ops_ok c ops = true -> d < length c ->
+    p_cfg_ok c = true -> p_ops_ok c ops = true -> d < length c -> length c <= p_max_events ->
     p_proj d (p_log (p_run be c ops)) = rev (a_log (l_run c d 0 (l_init c d) ops)).
 Proof. exact p_backends_refine. Qed.
 Print Assumptions c16_backends_refine_abstract.
@@ -510,6 +512,26 @@ Example c16_backends_agree_needs_g4 :
   map (fun e => (le_op e, le_kind e)) (p_proj 0 (p_log (p_run true c ops))) = [(3, PKRead); (4, PKWrite)] /\
   map (fun e => (le_op e, le_kind e)) (p_proj 0 (p_log (p_run false c ops))) = [(3, PKRead); (3, PKWrite); (4, PKWrite)].
 Proof. vm_compute. repeat split; reflexivity. Qed.
+
+(* One EPoller::Poll serves at most MAX_EVENTS ready descriptors: the batch it works on is a prefix of the
+   kernel's ready list of length <= 10; whatever is left is only served by a later Poll (and the timers run in
+   between: Poll returns after ONE batch, c16_selectserver_iteration).  SelectPoller serves every ready descriptor. *)
+Theorem c16_epoll_batch : forall c s ds,
+  length (p_ep_batch c s ds) <= 10 /\
+  exists rest, p_ep_ready c s ds = p_ep_batch c s ds ++ rest.
+Proof.
+  intros c s ds. split. unfold p_ep_batch. apply firstn_le_length.
+  exists (skipn p_max_events (p_ep_ready c s ds)). unfold p_ep_batch. symmetry. apply firstn_skipn.
+Qed.
+Print Assumptions c16_epoll_batch.
+
+(* 12 sockets that stay writable: one Poll gives 10 of them their write callback on epoll, all 12 on select *)
+Example c16_ex_epoll_batch :
+  let c := repeat (Build_p_dcfg PSock false false 9 [] [] []) 12 in
+  let ops := map POAddW (seq 0 12) ++ [POPoll false] in
+  (length (p_log (p_run true c ops)), length (p_log (p_run false c ops)),
+   map le_d (p_log (p_run true c ops))) = (10, 12, seq 0 10).
+Proof. vm_compute. reflexivity. Qed.
 
 (* Sanity checks kept from earlier rounds (bounded, by exhaustive evaluation): *)
 (* Both back-ends deliver, per descriptor, the same callbacks and the same bytes — proved here ONLY on a
